@@ -127,7 +127,11 @@ C12Equiv(l, r) ==
               /\ l.res.ok => (ValEq(l.res.v, r.res.v) /\ (l.op = "parse" => l.res.p = r.res.p)))
 
 \* C14  checksums built always verify; corruption is detected
-C14Verifies(n, b, p) == Tri(b.res.ok, p.res.ok)
+\* (for values of the covered member's domain: the specification itself reads its own encoding back -- a text with an embedded
+\* terminator, for instance, is cut short on parsing and then covers other bytes than were digested)
+C14Verifies(n, b, p) ==
+    LET mb == BuildCall(n, b.arg, <<>>, b.kw) IN
+    Tri(b.res.ok /\ ~IsOOM(mb) /\ mb.ok /\ (LET mp == ParseCall(n, mb.s.data, 0, b.kw) IN ~IsOOM(mp) /\ mp.ok), p.res.ok)
 C14Detects(n, b, p) == Tri(b.res.ok /\ p.data # b.res.v.b, ~p.res.ok /\ p.res.err = "ChecksumError")
 \* RawCopy: building from value or from data emits the same bytes.  cs = <<build {value}, build {data}>>
 C14SameBytes(n, bv, bd) == Tri(bv.res.ok, bd.res.ok /\ bd.res.v = bv.res.v)
